@@ -19,8 +19,8 @@ META = {'title': 'The AY chip turns any register history into the sound its regi
                  'dac[out]*pan recomputed from the model\'s DAC indices and tables',
                  'time unit of all theorems: one tick = one update_mixer = 8 chip clocks; that process() performs '
                  'f_clk/8 ticks per second of output is floating-point resampling and is only observed (zero-crossing '
-                 'frequency, envelope contour) - and is false below f_clk/64 samples per second (known finding '
-                 'C18/signal.low-rate)',
+                 'frequency, envelope contour) - and was false below f_clk/64 samples per second on the pinned commit (finding '
+                 'C18/signal.low-rate, repaired in /repo by fix commit 9244141)',
                  'usize is 64 bits (the LFSR register is modelled as BitVec 64 and proved to stay below 2^17)',
                  'the noise period before the first write to R6 is the power-on 0 of the code (LFSR clocked every '
                  'tick); the property quantifies over written periods 1..31, the spec decides only those (and 0 as 1)',
@@ -54,6 +54,5 @@ META = {'title': 'The AY chip turns any register history into the sound its regi
                'filter, and therefore "every sample is finite and bounded" and the mapping of ticks to output time) '
                'is observed by the harness only; fir_bounded_Q and its companions are proved over a Q-model of the filter formulas (with Mathlib nlinarith/ring), which says what exact arithmetic would give, not what the f64 code gives. bv_decide is used '
                'for one statement (the 64-bit LFSR step equals the 17-bit LFSR on 17-bit values); decide +kernel for '
-               'the 16 x 96 envelope step table. Open finding: AymPrecise is unusable below f_clk/64 = 27.7 kHz '
-               '(samples unbounded, pitch wrong), see known_findings.json C18/signal.low-rate and '
-               'proposed_fixes/C18-1.diff.'}
+               'the 16 x 96 envelope step table. Finding, fixed: on the pinned commit AymPrecise was unusable below f_clk/64 = 27.7 kHz '
+               '(samples unbounded, pitch wrong): known_findings.json C18/signal.low-rate, fix commit 9244141.'}
